@@ -204,7 +204,15 @@ func showDataMsg(m *entities.Message) string {
 	if len(set.GetRecords()) > 0 {
 		tid = int(set.GetRecords()[0].GetTemplateID())
 	}
-	return fmt.Sprintf("D:%d:%d %s", m.GetObsDomainID(), tid, ShowRecords(set.GetRecords()))
+	var sb strings.Builder
+	fmt.Fprintf(&sb, "D:%d:%d %s E", m.GetObsDomainID(), tid, ShowRecords(set.GetRecords()))
+	if recs := set.GetRecords(); len(recs) > 0 {
+		for _, e := range recs[0].GetOrderedElementList() {
+			ie := e.GetInfoElement()
+			fmt.Fprintf(&sb, " %d/%d/%s", ie.ElementId, ie.EnterpriseId, ie.Name)
+		}
+	}
+	return sb.String()
 }
 
 // c01One runs one exchange. toks: <obs> <tid> <ntpl> <dsel> <nf> specs.. <nrec> values..
@@ -305,6 +313,135 @@ func c01One(p *c01Peer, toks []string) (obs string) {
 			sb.WriteString(" " + showTemplateMsg(m))
 		} else {
 			sb.WriteString(" " + showDataMsg(m))
+		}
+	}
+	return sb.String()
+}
+
+// c01Chain runs a history of exchanges against one collector (a fresh exporting process per
+// exchange); toks: <nex> { <obs> <tid> <nf> specs.. <ndata> { <nrec> values.. }*ndata }*nex.
+// Everything delivered is rendered only after the last exchange.
+func c01Chain(p *c01Peer, toks []string) (obs string) {
+	defer func() {
+		if r := recover(); r != nil {
+			obs = fmt.Sprintf("harness-panic %v", r)
+		}
+	}()
+	nex := atoi(toks[0])
+	t := toks[1:]
+	type result struct {
+		sent  []string
+		first int
+		want  int
+	}
+	results := []result{}
+	for x := 0; x < nex; x++ {
+		od := uint32(atou(t[0]))
+		tid := uint16(atou(t[1]))
+		nf := atoi(t[2])
+		t = t[3:]
+		ies := make([]*entities.InfoElement, nf)
+		for i := 0; i < nf; i++ {
+			var spec IESpec
+			spec, t = parseIESpec(t)
+			ie, err := registry.GetInfoElementFromID(spec.ID, spec.Ent)
+			if err != nil {
+				ie = spec.IE("user")
+			}
+			ies[i] = ie
+		}
+		ndata := atoi(t[0])
+		t = t[1:]
+		sets := make([][][]entities.InfoElementWithValue, ndata)
+		for d := 0; d < ndata; d++ {
+			nrec := atoi(t[0])
+			t = t[1:]
+			sets[d] = make([][]entities.InfoElementWithValue, nrec)
+			for k := 0; k < nrec; k++ {
+				sets[d][k] = make([]entities.InfoElementWithValue, nf)
+				for i := 0; i < nf; i++ {
+					sets[d][k][i], t = MkElem(ies[i], t)
+				}
+			}
+		}
+		res := result{}
+		res.first = func() int { p.d.mu.Lock(); defer p.d.mu.Unlock(); return len(p.d.msgs) }()
+		in := exporter.ExporterInput{CollectorAddress: p.cp.GetAddress().String(), ObservationDomainID: od, IsIPv6: p.ipver == "v6"}
+		switch p.transport {
+		case "tcp", "tls":
+			in.CollectorProtocol = "tcp"
+		default:
+			in.CollectorProtocol = "udp"
+		}
+		if p.transport == "tls" {
+			in.TLSClientConfig = &exporter.ExporterTLSClientConfig{CAData: p.ca.CertPEM, ServerName: "collector.test"}
+		}
+		ep, err := exporter.InitExportingProcess(in)
+		if err != nil {
+			return "init-error"
+		}
+		send := func(set entities.Set) bool {
+			n, err := ep.SendSet(set)
+			if err != nil {
+				res.sent = append(res.sent, "err:"+errClass(err))
+				return false
+			}
+			res.sent = append(res.sent, fmt.Sprint(n))
+			res.want++
+			return true
+		}
+		tset := entities.NewSet(false)
+		tset.PrepareSet(entities.Template, tid)
+		els := make([]entities.InfoElementWithValue, nf)
+		for i, ie := range ies {
+			els[i], _ = entities.DecodeAndCreateInfoElementWithValue(ie, nil)
+		}
+		tset.AddRecord(els, tid)
+		send(tset)
+		for _, recs := range sets {
+			dset := entities.NewSet(false)
+			dset.PrepareSet(entities.Data, tid)
+			for _, rec := range recs {
+				dset.AddRecord(rec, tid)
+			}
+			send(dset)
+		}
+		deadline := time.Now().Add(3 * time.Second * slowFactor())
+		for {
+			p.d.mu.Lock()
+			got := len(p.d.msgs) - res.first
+			p.d.mu.Unlock()
+			if got >= res.want || time.Now().After(deadline) {
+				break
+			}
+			time.Sleep(200 * time.Microsecond)
+		}
+		ep.CloseConnToCollector()
+		if in.CollectorProtocol == "tcp" {
+			waitConns(p.cp, 0, 5*time.Second)
+		}
+		results = append(results, res)
+	}
+	p.d.mu.Lock()
+	all := append([]*entities.Message{}, p.d.msgs...)
+	p.d.mu.Unlock()
+	var sb strings.Builder
+	for i, res := range results {
+		end := len(all)
+		if i+1 < len(results) {
+			end = results[i+1].first
+		}
+		got := all[res.first:end]
+		fmt.Fprintf(&sb, "x sent=%s n=%d", strings.Join(res.sent, ","), len(got))
+		for _, m := range got {
+			if m.GetSet().GetSetType() == entities.Template {
+				sb.WriteString(" " + showTemplateMsg(m))
+			} else {
+				sb.WriteString(" " + showDataMsg(m))
+			}
+		}
+		if i+1 < len(results) {
+			sb.WriteString(" ")
 		}
 	}
 	return sb.String()
@@ -428,9 +565,101 @@ func runC01(env *Env) {
 		}
 		return kase{sb.String(), c.transport + "/" + class}
 	}
+	// histories: several exchanges against one collector
+	// reversible IANA elements and their reverse counterparts (same id, type and length, other enterprise)
+	type pair struct{ a, b *entities.InfoElement }
+	pairs := []pair{}
+	for _, e := range pool {
+		if e.EnterpriseId == registry.IANAEnterpriseID {
+			if rv, err := registry.GetInfoElementFromID(e.ElementId, registry.IANAReversedEnterpriseID); err == nil && c01Types[rv.DataType] {
+				pairs = append(pairs, pair{e, rv})
+			}
+		}
+	}
+	octs := []*entities.InfoElement{}
+	for _, e := range pool {
+		if e.DataType == entities.OctetArray || e.DataType == entities.String {
+			octs = append(octs, e)
+		}
+	}
+	specOf := func(ie *entities.InfoElement) string {
+		return fmt.Sprintf("%d %d %d %d", ie.ElementId, ie.DataType, ie.EnterpriseId, ie.Len)
+	}
+	exchange := func(obs uint32, tid uint16, ies []*entities.InfoElement, ndata int) string {
+		var sb strings.Builder
+		fmt.Fprintf(&sb, "%d %d %d", obs, tid, len(ies))
+		for _, ie := range ies {
+			sb.WriteString(" " + specOf(ie))
+		}
+		fmt.Fprintf(&sb, " %d", ndata)
+		for d := 0; d < ndata; d++ {
+			nrec := 1 + r.Intn(3)
+			fmt.Fprintf(&sb, " %d", nrec)
+			for k := 0; k < nrec; k++ {
+				for _, ie := range ies {
+					sb.WriteString(" " + randValue(r, ie, 12))
+				}
+			}
+		}
+		return sb.String()
+	}
+	genChain := func(c cfg, k int) kase {
+		domain++
+		tid := uint16(256 + r.Intn(60000))
+		n := 1 + r.Intn(5)
+		switch k % 4 {
+		case 0: // the same (domain, id) redefined with the reverse elements: same ids and lengths, other enterprise
+			a, b := make([]*entities.InfoElement, n), make([]*entities.InfoElement, n)
+			for i := range a {
+				p := pairs[r.Intn(len(pairs))]
+				a[i], b[i] = p.a, p.b
+				if r.Bool() {
+					a[i], b[i] = p.b, p.a
+				}
+			}
+			return kase{fmt.Sprintf("chain %s %s 3 %s %s %s", c.transport, c.ipver, exchange(domain, tid, a, 1), exchange(domain, tid, b, 1), exchange(domain, tid, a, 1)),
+				c.transport + "/chain-redefine-other-enterprise"}
+		case 1: // several data messages on one connection, variable-length byte fields present
+			ies := make([]*entities.InfoElement, n+1)
+			for i := range ies {
+				ies[i] = pool[r.Intn(len(pool))]
+			}
+			ies[r.Intn(len(ies))] = octs[r.Intn(len(octs))]
+			return kase{fmt.Sprintf("chain %s %s 1 %s", c.transport, c.ipver, exchange(domain, tid, ies, 2+r.Intn(3))), c.transport + "/chain-multi-data"}
+		case 2: // another domain with the same template id, then the first domain again
+			a, b := make([]*entities.InfoElement, n), make([]*entities.InfoElement, 1+r.Intn(5))
+			for i := range a {
+				a[i] = pool[r.Intn(len(pool))]
+			}
+			for i := range b {
+				b[i] = pool[r.Intn(len(pool))]
+			}
+			domain++
+			return kase{fmt.Sprintf("chain %s %s 3 %s %s %s", c.transport, c.ipver, exchange(domain-1, tid, a, 1), exchange(domain, tid, b, 1), exchange(domain-1, tid, a, 2)),
+				c.transport + "/chain-other-domain"}
+		default: // redefinition with an unrelated template
+			a, b := make([]*entities.InfoElement, n), make([]*entities.InfoElement, 1+r.Intn(5))
+			for i := range a {
+				a[i] = pool[r.Intn(len(pool))]
+			}
+			for i := range b {
+				b[i] = pool[r.Intn(len(pool))]
+			}
+			return kase{fmt.Sprintf("chain %s %s 2 %s %s", c.transport, c.ipver, exchange(domain, tid, a, 1), exchange(domain, tid, b, 2)), c.transport + "/chain-redefine"}
+		}
+	}
+	nchain := 16
+	if env.Thorough() {
+		nchain = 400
+	}
 	for i, c := range cfgs {
 		for k := 0; k < per; k++ {
 			cases[i] = append(cases[i], genCase(c, k))
+		}
+		if c.transport != "dtls" { // a DTLS collector of this library serves one connection only
+			for k := 0; k < nchain; k++ {
+				cases[i] = append(cases[i], genChain(c, k))
+			}
 		}
 	}
 	if len(env.Replay) > 0 {
@@ -443,8 +672,12 @@ func runC01(env *Env) {
 					break
 				}
 			}
+			tr, iv := t[1], t[2]
+			if t[1] == "chain" {
+				tr, iv = t[2], t[3]
+			}
 			for i, c := range cfgs {
-				if (c.transport == t[1] || (c.transport == "dtls" && t[1] == "dtlsbig")) && c.ipver == t[2] {
+				if (c.transport == tr || (c.transport == "dtls" && tr == "dtlsbig")) && c.ipver == iv {
 					cases[i] = append(cases[i], kase{strings.Join(t[1:], " "), "replay"})
 				}
 			}
@@ -463,13 +696,21 @@ func runC01(env *Env) {
 					results[i][k] = "-"
 					continue
 				}
+				f := strings.Fields(ks.line)
+				if f[0] == "chain" {
+					// a history starts from an empty template table: its own collector
+					cp := c01Start(c.transport, c.ipver, ca, srv)
+					results[i][k] = c01Chain(cp, f[3:])
+					cp.stop()
+					continue
+				}
 				if p == nil || c.transport == "dtls" {
 					if p != nil {
 						p.stop()
 					}
 					p = c01Start(c.transport, c.ipver, ca, srv)
 				}
-				results[i][k] = c01One(p, strings.Fields(ks.line)[2:])
+				results[i][k] = c01One(p, f[2:])
 			}
 			if p != nil {
 				p.stop()
